@@ -14,6 +14,15 @@ On(p) == p \in Check
 Put(f, i, v) == (i :> v) @@ f
 Tup(s) == [i \in 1..Len(s) |-> s[i]]
 
+(* ---- binary layout (family 21, serial version 1): 3 preamble longs when empty, else 4 + the words ---- *)
+LE(x, n) == [i \in 1..n |-> (x \div (256 ^ (i - 1))) % 256]
+ByteOf(bits, j) == LET b(i) == IF (8 * j + i) \in bits THEN 2 ^ i ELSE 0 IN b(0) + b(1) + b(2) + b(3) + b(4) + b(5) + b(6) + b(7)
+EncBF(st, seed8) ==
+  LET empty == st.nset = 0 IN
+  <<IF empty THEN 3 ELSE 4, 1, 21, IF empty THEN 4 ELSE 0>> \o LE(st.k, 2) \o <<0, 0>> \o seed8
+  \o LE(st.cap \div 64, 4) \o <<0, 0, 0, 0>>
+  \o (IF empty THEN <<>> ELSE LE(st.nset, 4) \o <<0, 0, 0, 0>> \o [j \in 1..(st.cap \div 8) |-> ByteOf(st.bits, j - 1)])
+
 TInit == l = 1 /\ obj = <<>> /\ gh = <<>>
 TrRun == IsEv("Run") /\ obj' = <<>> /\ gh' = <<>>
 
@@ -78,6 +87,8 @@ TrChk ==
      /\ On("C09") => /\ {Ev.bits[i] : i \in 1..Len(Ev.bits)} = st.bits
                      /\ Ev.used = st.nset
                      /\ (gh[Ev.id].pure => st.bits = A_Bits(gh[Ev.id].ins))
+     /\ (On("C12") /\ "img" \in DOMAIN Ev) =>
+           [i \in 1..Len(Ev.img) |-> Ev.img[i]] = EncBF(st, [i \in 1..8 |-> Ev.seed8[i]])
      /\ On("C18") => Ev.len = (IF st.nset = 0 THEN 24 ELSE 32 + st.cap \div 8)
   /\ UNCHANGED <<obj, gh>>
 
